@@ -103,6 +103,7 @@ def parseXkOp (op : String) : Option XKeyStore.Op :=
   | "c", [r, i] => do let r ← r.toNat?; let i ← i.toNat?; pure (.child r i)
   | "n", [r] => do let r ← r.toNat?; pure (.neuter r)
   | "p", [r, p] => do let r ← r.toNat?; let p ← unhex p; pure (.path r p)
+  | "d", [r, p] => do let r ← r.toNat?; let p ← unhex p; pure (.path r p)   -- DerivePublicKeyFromPath is a pure read
   | "t", [r] => do let r ← r.toNat?; pure (.reparse r)
   | "s", [r, n] => do let r ← r.toNat?; let n ← n.toNat?; pure (.setNet r n)
   | "z", [r] => do let r ← r.toNat?; pure (.zero r)
